@@ -11,6 +11,7 @@ solve_t calls over the range computed from the statement.
 from __future__ import annotations
 
 import sys
+import contextlib
 import time
 import warnings
 from typing import Any, Dict, List, Optional
@@ -106,7 +107,7 @@ def _cells(cfg, symbolic=True, inp=None):
 _TRACED: dict = {}
 
 
-def _model(cfg, span, cells, scripts, dtype):
+def _model(cfg, span, cells, scripts, dtype, staged=False):
     M = make_scripted(cfg['N'], with_z=False, lags=cfg['lags'], leads=cfg['leads'])
     if cfg.get('tracer'):
         key = (cfg['N'], cfg['lags'], cfg['leads'])
@@ -114,16 +115,61 @@ def _model(cfg, span, cells, scripts, dtype):
             from fsic.extensions.model import TracerMixin
             _TRACED[key] = type('TracedScripted', (TracerMixin, M), {})
         M = _TRACED[key]
-    m = M(span, dtype=dtype)
-    for n, vals in cells.items():
-        arr = m.__dict__['_' + n]
-        for j, v in enumerate(vals):
-            arr[j] = v
+    if staged and cfg.get('stage'):
+        m = _staged(cfg, M, span, cells, dtype)
+    else:
+        m = M(span, dtype=dtype)
+        for n, vals in cells.items():
+            arr = m.__dict__['_' + n]
+            for j, v in enumerate(vals):
+                arr[j] = v
     m.attach(Script(cfg['N'], cfg['B']), scripts)
     if cfg.get('presolved'):
         # a model that has been solved before: later periods must keep these marks when an earlier period fails
         m.status[:] = '.'
         m.iterations[:] = 7
+    return m
+
+
+def _staged(cfg, M, span, cells, dtype):
+    """The model under test reached through a HISTORY (cfg['stage'] = 'reindex' | 'copy'): built on a span with one more
+    period in front (so that every label sits at another position), every period and every label of the final span
+    solved before -- by default range, by explicit start / end, by solve_period -- then reindexed to the final span (or
+    copied), series installed by whole-series assignment, marks reset.  Positions, lengths or arrays remembered from
+    before are stale."""
+    labels = list(span)
+    kind = cfg['span']
+    if cfg['stage'] == 'reindex' and labels and not kind.endswith('_sym'):
+        first = labels[0]
+        pre = 'zz0' if isinstance(first, str) else first - (labels[1] - first if len(labels) > 1 else 1)
+        wide_l = [pre] + labels
+        wide = np.array(wide_l) if kind.startswith('nd_') else (range(wide_l[0], wide_l[-1] + 1, wide_l[1] - wide_l[0]) if kind.startswith('range') else wide_l)
+    else:
+        wide = span
+    m = M(wide, dtype=dtype)
+    m.attach(Script(cfg['N'], 2), {})
+    kw = dict(max_iter=2, failures='ignore', errors='ignore')
+    with (lf.shimmed() if dtype is object else contextlib.nullcontext()), warnings.catch_warnings():
+        warnings.simplefilter('ignore')
+        def again():
+            m.attach(Script(cfg['N'], 2), {})   # the scripted passes start over for every call
+            return m
+
+        if len(list(wide)) > cfg['lags'] + cfg['leads']:
+            again().solve(**kw)
+        if not kind.endswith('_sym'):
+            feas = labels[cfg['lags']:len(labels) - cfg['leads']]
+            for lab in feas:
+                again().solve(start=lab, end=lab, **kw)
+                again().solve_period(lab, **kw)
+            if feas:
+                again().solve(start=feas[0], **kw)
+                again().solve(end=feas[-1], **kw)
+    m = m.reindex(span) if cfg['stage'] == 'reindex' else m.copy()
+    for n, vals in cells.items():
+        setattr(m, n, list(vals))
+    m.status = '-'
+    m.iterations = -1
     return m
 
 
@@ -251,8 +297,10 @@ def _same_outcome(a, b, labels_identity=True) -> Optional[str]:
 
 
 def _lab_eq(x, y) -> bool:
+    if isinstance(x, SInt) and isinstance(y, SInt):
+        return x.t.eq(y.t)  # the very labels of the span, or copies of them (a copied / reindexed model holds copies)
     if isinstance(x, SInt) or isinstance(y, SInt):
-        return False  # proxies must be the very objects of the span
+        return False
     return x == y
 
 
@@ -283,7 +331,7 @@ def explore5(cfg: dict) -> dict:
         start, end = _bound(cfg, 'start'), _bound(cfg, 'end')
         span1, labels1 = _span_and_labels(cfg)
         span2, labels2 = _span_and_labels(cfg)
-        m1 = _model(cfg, span1, _cells(cfg), _scripts(cfg), object)
+        m1 = _model(cfg, span1, _cells(cfg), _scripts(cfg), object, staged=True)
         m2 = _model(cfg, span2, _cells(cfg), _scripts(cfg), object)
         with lf.shimmed():
             if cfg['entry'] == 'solve_period':
@@ -428,7 +476,7 @@ def replay5(cfg: dict, inp: dict) -> dict:
     assert fmodels.np is np
     tol, min_iter = inp['tol'], inp['min_iter']
     start, end = inp['start'], inp['end']
-    m1 = _model(cfg, _concrete_span(cfg, inp), _cells(cfg, False, inp), _scripts(cfg, False, inp), float)
+    m1 = _model(cfg, _concrete_span(cfg, inp), _cells(cfg, False, inp), _scripts(cfg, False, inp), float, staged=True)
     m2 = _model(cfg, _concrete_span(cfg, inp), _cells(cfg, False, inp), _scripts(cfg, False, inp), float)
     labels = list(inp['labels'])
     if cfg['entry'] == 'solve_period':
@@ -530,6 +578,19 @@ def configs(tier: str):
             out.append(cfg5(span=span, L=3, entry='solve_period', start=lab))
             out.append(cfg5(span=span, L=3, entry='solve', start=lab, end='none', errors='ignore', failures='ignore'))
             out.append(cfg5(span=span, L=3, entry='solve', start='none', end=lab, errors='ignore', failures='ignore'))
+    # HISTORIES: the same questions asked of a model that has been solved before over another span and then reindexed /
+    # copied (labels have moved; a label of the old span may be gone)
+    for stage in ('reindex', 'copy'):
+        for span, labs in (('range', [1999, 2000, 2001, 2002]), ('range_step', [1995, 2000, 2005, 2010]), ('nd_int', [1999, 2000, 2002]),
+                           ('list_str', ['zz0'] + STR_LABELS[:3])):
+            for lab in labs:
+                out.append(cfg5(span=span, L=3, entry='solve_period', start=lab, stage=stage))
+                out.append(cfg5(span=span, L=3, entry='solve', start=lab, end='none', errors='ignore', failures='ignore', stage=stage))
+                out.append(cfg5(span=span, L=3, entry='solve', start='none', end=lab, errors='ignore', failures='ignore', stage=stage))
+            out.append(cfg5(span=span, L=3, stage=stage, errors='skip', failures='ignore', faults=True))
+            if span == 'range':
+                out.append(cfg5(span=span, L=3, stage=stage, lags=1, leads=1, errors='ignore', failures='ignore'))
+        out.append(cfg5(span='list_sym', L=2, start='sym', end='sym', stage=stage, errors='ignore', failures='ignore'))
     return out
 
 
